@@ -128,6 +128,25 @@ def check(run):
            "the block's parameter index is rewritten before the block is written" if ok else
            "block_parameters_index must be remapped on the same block object before writer.write_block(block)")
     if remaps:
+        # the rewrite happens for every block that is written: the only condition it may sit under is the success of the
+        # lookup (a block that omits its index means index 0 and needs the new value as much as any other)
+        g_remap = None
+        for st, g, loops_ in ir.guarded_statements(mg["body"], env):
+            if st.get("k") in ("IfCond", "LoopHead", "SwitchHead"):
+                continue
+            if any(x is remaps[0][2] for x in ir.walk(st)):
+                g_remap = g
+        g_write = None
+        for st, g, loops_ in ir.guarded_statements(mg["body"], env):
+            if st.get("k") in ("IfCond", "LoopHead", "SwitchHead"):
+                continue
+            if wcalls and any(x is wcalls[0] for x in ir.walk(st)):
+                g_write = g
+        extra = [a for a in conjuncts(g_remap or ("T",)) if a not in conjuncts(g_write or ("T",)) and "end()" not in repr(a)]
+        run.ob("R18.2", "cdns_merge:remap-unconditional", not extra, mg, remaps[0][2].get("l", 0),
+               "every block that is written gets its new parameter index" if not extra else
+               "the index is rewritten only when %s, but the block is written regardless: a block for which that does not hold (e.g. one "
+               "that omits the optional index, meaning 0) keeps an index of its source file" % " && ".join(show_f(a) for a in extra))
         txt = show(remaps[0][1])
         for x in ir.walk(remaps[0][1]):
             if x.get("k") == "Ref" and x.get("d") == "local":
@@ -137,7 +156,7 @@ def check(run):
         ok = "get_block_parameters_index()" in txt
         run.ob("R18.2", "cdns_merge:remap-keyed-by-old-index", ok, mg, remaps[0][2].get("l", 0),
                "the new index is looked up by the block's own old index" if ok else "remapping is keyed by %s" % txt)
-    run.floor("R18.2", 2, "remap obligations")
+    run.floor("R18.2", 3, "remap obligations")
 
     # ---------------- R18.3 error isolation and version check
     loops = []
